@@ -241,27 +241,87 @@ leaf!(
         .clone()
 );
 
-/// the symbol an error condition is written as (part 2 §2.8.15–18, part 4 §4.5.8)
+/// the symbol an error condition is written as (part 2 §2.8.15–18, part 4 §4.5.8): written here from the
+/// standard, independently of the tables in fe2o3-amqp-types
 fn condition_symbol(c: &ErrorCondition) -> String {
+    use fe2o3_amqp_types::transaction::TransactionError;
     match c {
-        ErrorCondition::AmqpError(AmqpError::InternalError) => "amqp:internal-error".into(),
-        ErrorCondition::AmqpError(AmqpError::DecodeError) => "amqp:decode-error".into(),
-        ErrorCondition::ConnectionError(ConnectionError::FramingError) => "amqp:connection:framing-error".into(),
-        ErrorCondition::SessionError(SessionError::WindowViolation) => "amqp:session:window-violation".into(),
-        ErrorCondition::LinkError(LinkError::TransferLimitExceeded) => "amqp:link:transfer-limit-exceeded".into(),
+        ErrorCondition::AmqpError(e) => match e {
+            AmqpError::InternalError => "amqp:internal-error",
+            AmqpError::NotFound => "amqp:not-found",
+            AmqpError::UnauthorizedAccess => "amqp:unauthorized-access",
+            AmqpError::DecodeError => "amqp:decode-error",
+            AmqpError::ResourceLimitExceeded => "amqp:resource-limit-exceeded",
+            AmqpError::NotAllowed => "amqp:not-allowed",
+            AmqpError::InvalidField => "amqp:invalid-field",
+            AmqpError::NotImplemented => "amqp:not-implemented",
+            AmqpError::ResourceLocked => "amqp:resource-locked",
+            AmqpError::PreconditionFailed => "amqp:precondition-failed",
+            AmqpError::ResourceDeleted => "amqp:resource-deleted",
+            AmqpError::IllegalState => "amqp:illegal-state",
+            AmqpError::FrameSizeTooSmall => "amqp:frame-size-too-small",
+        }
+        .into(),
+        ErrorCondition::ConnectionError(e) => match e {
+            ConnectionError::ConnectionForced => "amqp:connection:forced",
+            ConnectionError::FramingError => "amqp:connection:framing-error",
+            ConnectionError::Redirect => "amqp:connection:redirect",
+        }
+        .into(),
+        ErrorCondition::SessionError(e) => match e {
+            SessionError::WindowViolation => "amqp:session:window-violation",
+            SessionError::ErrantLink => "amqp:session:errant-link",
+            SessionError::HandleInUse => "amqp:session:handle-in-use",
+            SessionError::UnattachedHandle => "amqp:session:unattached-handle",
+        }
+        .into(),
+        ErrorCondition::LinkError(e) => match e {
+            LinkError::DetachForced => "amqp:link:detach-forced",
+            LinkError::TransferLimitExceeded => "amqp:link:transfer-limit-exceeded",
+            LinkError::MessageSizeExceeded => "amqp:link:message-size-exceeded",
+            LinkError::Redirect => "amqp:link:redirect",
+            LinkError::Stolen => "amqp:link:stolen",
+        }
+        .into(),
+        ErrorCondition::TransactionError(e) => match e {
+            TransactionError::UnknownId => "amqp:transaction:unknown-id",
+            TransactionError::Rollback => "amqp:transaction:rollback",
+            TransactionError::Timeout => "amqp:transaction:timeout",
+        }
+        .into(),
         ErrorCondition::Custom(s) => s.0.clone(),
-        other => panic!("condition {:?} is not generated", other),
     }
 }
 
-leaf!(ErrorCondition, |x| Value::Symbol(Symbol::from(condition_symbol(x))), |rng, d| match rng.below(6) {
-    0 => ErrorCondition::AmqpError(AmqpError::InternalError),
-    1 => ErrorCondition::AmqpError(AmqpError::DecodeError),
-    2 => ErrorCondition::ConnectionError(ConnectionError::FramingError),
-    3 => ErrorCondition::SessionError(SessionError::WindowViolation),
-    4 => ErrorCondition::LinkError(LinkError::TransferLimitExceeded),
-    _ => ErrorCondition::Custom(Symbol::from(format!("x:{}", gen_ascii(rng)))),
+leaf!(ErrorCondition, |x| Value::Symbol(Symbol::from(condition_symbol(x))), |rng, d| {
+    use fe2o3_amqp_types::transaction::TransactionError;
+    match rng.below(7) {
+        0 | 1 => ErrorCondition::AmqpError(
+            rng.pick(&[
+                AmqpError::InternalError,
+                AmqpError::NotFound,
+                AmqpError::UnauthorizedAccess,
+                AmqpError::DecodeError,
+                AmqpError::ResourceLimitExceeded,
+                AmqpError::NotAllowed,
+                AmqpError::InvalidField,
+                AmqpError::NotImplemented,
+                AmqpError::ResourceLocked,
+                AmqpError::PreconditionFailed,
+                AmqpError::ResourceDeleted,
+                AmqpError::IllegalState,
+                AmqpError::FrameSizeTooSmall,
+            ])
+            .clone(),
+        ),
+        2 => ErrorCondition::ConnectionError(rng.pick(&[ConnectionError::ConnectionForced, ConnectionError::FramingError, ConnectionError::Redirect]).clone()),
+        3 => ErrorCondition::SessionError(rng.pick(&[SessionError::WindowViolation, SessionError::ErrantLink, SessionError::HandleInUse, SessionError::UnattachedHandle]).clone()),
+        4 => ErrorCondition::LinkError(rng.pick(&[LinkError::DetachForced, LinkError::TransferLimitExceeded, LinkError::MessageSizeExceeded, LinkError::Redirect, LinkError::Stolen]).clone()),
+        5 => ErrorCondition::TransactionError(rng.pick(&[TransactionError::UnknownId, TransactionError::Rollback, TransactionError::Timeout]).clone()),
+        _ => ErrorCondition::Custom(Symbol::from(format!("x:{}", gen_ascii(rng)))),
+    }
 });
+
 
 leaf!(
     MessageId,
